@@ -145,6 +145,9 @@ def run(ck: Check):
     e2e(ck, QUICK_E2E, "debug")
     # the shipped binary (fixed scratch arenas) around the statement limit: D-20 witness family
     c18cli.run(ck, names=("incr", "bind") if ck.tier == "quick" else tuple(c18cli.FILLERS))
+    if ck.tier == "thorough":
+        # the release build wraps where the debug build traps: the far-above-the-limit programs on both
+        c18cli.run(ck, names=(), profile="release")
     scc(ck, corpus_scc() + QUICK_SCC, QUICK_SCC_RANDOM, label="limits-scc")
     if ck.tier == "thorough":
         ck.seed += 77
